@@ -745,6 +745,8 @@ class VarsManager(object):
         :param name: String
         """
         self.xy2rp(name)
+        if self.complex_vars[name] != True:
+            return  # kept in xy form (a component is shared): nothing to standardise
         r = self.variables[name + "r"]
         p = self.variables[name + "i"]
         if r < 0:
